@@ -24,11 +24,11 @@ type ReaderUse struct {
 	Fn     *ssa.Function
 	Ins    ssa.Instruction
 	Kind   ReaderUseKind
-	Buf    ssa.Value         // FullRead/BareRead: the buffer operand
-	Call   *ssa.Call         // FullRead/BareRead/PassMQ
-	Callee []*ssa.Function   // PassMQ
-	What   string            // OtherUse: description
-	Index  int               // ordinal of this read in Fn (for stable construct names)
+	Buf    ssa.Value       // FullRead/BareRead: the buffer operand
+	Call   *ssa.Call       // FullRead/BareRead/PassMQ
+	Callee []*ssa.Function // PassMQ
+	What   string          // OtherUse: description
+	Index  int             // ordinal of this read in Fn (for stable construct names)
 	Reader ssa.Value
 }
 
